@@ -64,8 +64,6 @@ def gen_multisignal(rng, tier):
             ops = [("s" if (k == 1 or rng.random() < 0.5) else "S") for _ in range(n)]
             fibers.append(",".join(_sprinkle(rng, ops)))
         rng.shuffle(fibers)
-        # `z`: final rendez-vous, keeps all fibers (their list nodes) alive until every raise is over
-        fibers = [f + ",z" for f in fibers]
         cases.append({"args": [k, "|".join(fibers)], "env": _env(rng)})
     return cases
 
